@@ -14,12 +14,6 @@ variable {σ : Type}
 def Lawful (t : MT σ) : Prop :=
   ∀ st tg at_ u u', (t.step (t.step st (.start tg at_) u).1 (.end_ tg) u').1 = st
 
-/-- the state of a matcher that started in `s0` and has tested the STARTs of the open elements
-    `stk` (innermost first) -/
-def openSt (step : σ → Event → Bool → σ × Bool) (s0 : σ) : List Open → σ
-  | [] => s0
-  | o :: stk => (step (openSt step s0 stk) (.start o.1 o.2) false).1
-
 /-- slot `t` is in sync with the open elements `stk` (relative to base state `b`), or retired -/
 def View (b : σ) (stk : List Open) (t : MT σ) : Prop :=
   t.retired = true ∨ t.st = openSt t.step b stk
